@@ -20,7 +20,7 @@ func main() {
 		filterMain(args)
 	case "C16":
 		mirrorE2EMain(args)
-	case "C10":
+	case "C10", "C04":
 		reloadMain(args)
 	case "C01", "C12", "C13":
 		blastMain(args, args.Prop)
